@@ -6,6 +6,7 @@ GenInit == Init /\ h = <<>>
 E(name) == [ev |-> name]
 GenNext ==
     \/ \E n \in Triggers : RawTrigger(n) /\ h' = Append(h, [ev |-> "RawTrigger", name |-> n])
+    \/ RawRun /\ h' = Append(h, E("RawRun"))
     \/ Boot /\ h' = Append(h, E("Boot"))
     \/ CompleteLoad /\ h' = Append(h, E("CompleteLoad"))
     \/ CompleteNavel /\ h' = Append(h, E("CompleteNavel"))
@@ -23,6 +24,17 @@ GenNext ==
           /\ CASE b = "busy" -> busy' # busy [] b = "doing" -> doing' # doing [] b = "que" -> (que' # que /\ doing' = doing) [] b = "arch" -> arch' # arch
           /\ h' = Append(h, [ev |-> "Env", bit |-> b])
 GenSpec == GenInit /\ [][GenNext]_gvars
+(* focus instance: the pipeline at rest in `running` with work queued, executing and a worker busy -- the
+   situation in which the submit priorities differ -- reached by the prefix below on the real code *)
+LoadedPrefix == << E("Boot"), E("CompleteLoad"), E("CompleteNavel"), [ev |-> "Env", bit |-> "busy"], [ev |-> "Env", bit |-> "doing"] >>
+FocusInit ==
+    /\ st = "running" /\ tr = "active" /\ prior = "none" /\ bg = {} /\ arch = FALSE
+    /\ prio = "none" /\ wait = NoWait /\ slot = [k \in K |-> "none"]
+    /\ busy = TRUE /\ doing = TRUE /\ que = TRUE
+    /\ sub = "idle" /\ subp = "none" /\ fire = NoFire /\ nfired = 0 /\ rejected = FALSE /\ path = <<"running">>
+    /\ nsub = 0 /\ nenv = 0 /\ ncyc = 0 /\ nraw = 0
+    /\ h = LoadedPrefix
+FocusSpec == FocusInit /\ [][GenNext]_gvars
 View == vars
 Emit == PrintT(<<"SCHED", ToJson([h |-> h'])>>)
 SimInv == PrintT(<<"SCHED", ToJson([h |-> h])>>)
